@@ -1656,6 +1656,8 @@ impl Matcher {
                                     warn!("could not send back row to matcher sub sender: {e}");
                                     return Err(MatcherError::EventReceiverClosed);
                                 }
+                                #[cfg(feature = "verif")]
+                                crate::verif::gate_blocking("matcher-after-event");
                                 _ = self.last_change_tx.send(change_id);
                             }
                             Err(e) => {
